@@ -228,6 +228,9 @@ class Seg:
     def write(self, l, v):
         self.store[l] = v
         self.written.append(l)
+        bk = getattr(self, 'boolkeys', None)
+        if bk and l in bk:
+            self.boolkeys = {k: v_ for k, v_ in bk.items() if k != l}
 
     def val(self, e, kind=None):
         """value of an expression of group / scalar type (by designated location)"""
@@ -273,8 +276,14 @@ class Seg:
             self.write(l, new)
             return cur if e.get('post') else new
         if k == 'cond':
-            # value-selecting conditional on run-time data: opaque
-            return ZPoly.var('cond@' + loc_str(e))
+            # value-selecting conditional on run-time data: one run of the segment per outcome (choice script), the condition recorded
+            try:
+                take = self._inline_cond(e['c'])
+            except NeedChoice:
+                raise
+            except Unsupported:
+                return ZPoly.var('cond@' + loc_str(e))
+            return self.ival(e['then'] if take else e['else'])
         if k == 'call':
             r = self.call(e)
             if isinstance(r, ZPoly):
@@ -335,6 +344,14 @@ class Seg:
             d = self.decide(node.ast)
             if d is not None:
                 return ('decided', d)
+            x = strip(node.ast)
+            while isinstance(x, dict) and x.get('k') in ('cast', 'paren'):
+                x = strip(x['e'])
+            if isinstance(x, dict) and x.get('k') == 'bin' and x.get('op') in ('==', '!=') and self._is_flag(x['lhs']) and self._is_flag(x['rhs']):
+                a = self._inline_cond(x['lhs'])
+                kb = self.cond_key(self._flag_expr(x['rhs']))
+                if self.decide(x['rhs']) is None:
+                    return ('flagrel', x['op'], a, kb)
             key = self.cond_key(node.ast)
             for c in [x for x in walk(node.ast) if x.get('k') == 'call']:
                 self.call(c)
@@ -358,6 +375,22 @@ class Seg:
             return show_int(self.ival(x))
         except Unsupported:
             return 'expr@' + loc_str(x)
+
+    @staticmethod
+    def _flag_expr(e):
+        x = strip(e)
+        while isinstance(x, dict) and x.get('k') in ('cast', 'paren', 'load'):
+            x = strip(x['e'])
+        return x
+
+    def _is_flag(self, e):
+        """a boolean-typed operand that is not a literal (a flag variable, a comparison, a negation)"""
+        x = self._flag_expr(e)
+        if not isinstance(x, dict) or 'bool' in x and x.get('k') == 'lit':
+            return False
+        if (x.get('t') or {}).get('k') != 'bool':
+            return False
+        return x.get('k') in ('ref', 'member', 'bin', 'un')
 
     def decide(self, e):
         """outcome of an atomic condition when the segment's own writes determine it (null tests of pointer locals assigned on
@@ -440,6 +473,13 @@ class Seg:
             return ('call', e.get('name'), tl, tuple(al))
         if k == 'cast':
             return self.cond_key(e['e'])
+        if k in ('ref', 'load') and getattr(self, 'boolkeys', None):
+            try:
+                l = self.loc(e['e'] if k == 'load' else e)
+                if l in self.boolkeys:
+                    return self.boolkeys[l]
+            except Unsupported:
+                pass
         return ('truth', self.show(e))
 
     def stmt(self, s):
@@ -490,6 +530,14 @@ class Seg:
         if kk == 'int':
             if init is not None:
                 self.write(name, self.ival(init))
+                if kd == 'bool':
+                    x = strip(init)
+                    while isinstance(x, dict) and x.get('k') in ('cast', 'paren'):
+                        x = strip(x['e'])
+                    if isinstance(x, dict) and x.get('k') == 'bin' and x.get('op') in ('==', '!=', '<', '<=', '>', '>='):
+                        # the flag names its defining comparison (over the values at the declaration)
+                        self.boolkeys = dict(getattr(self, 'boolkeys', {}))
+                        self.boolkeys[name] = self.cond_key(x)
             return
         if init is not None and init.get('k') == 'copyctor':
             self.copy_into(name, self.loc(init['e']), t)
@@ -678,17 +726,7 @@ class Seg:
             self.stmt(s)
             return True
         if k == 'if':
-            d = self.decide(s['c'])
-            if d is not None:
-                return self._inline_stmt(s['then'] if d else s.get('else'))
-            # a branch on run-time data inside a helper: the driver re-runs the segment once per outcome (choice script)
-            script = getattr(self, 'script', [])
-            pos = getattr(self, 'script_pos', 0)
-            if pos >= len(script):
-                raise NeedChoice()
-            take = script[pos]
-            self.script_pos = pos + 1
-            self.helper_conds = getattr(self, 'helper_conds', []) + [(self.cond_key(s['c']), take)]
+            take = self._inline_cond(s['c'])
             return self._inline_stmt(s['then'] if take else s.get('else'))
         if k in ('for', 'while'):
             if k == 'for' and s.get('init'):
@@ -705,6 +743,34 @@ class Seg:
                     self.expr(s['inc'])
             raise Unsupported('helper loop bound at %s' % loc_str(s))
         raise Unsupported('helper statement %s at %s' % (k, loc_str(s)))
+
+    def _inline_cond(self, c):
+        """outcome of a condition inside an inlined helper: short-circuit operators are followed, an atomic condition that the segment's
+        own writes decide is decided, any other one is a run-time branch - the driver re-runs the segment once per outcome (choice
+        script) - and the calls inside it are executed for their effects, as for the conditions of the routine itself"""
+        c0 = strip(c)
+        while isinstance(c0, dict) and c0.get('k') == 'cast' and c0.get('ck') in (None, 'NoOp', 'IntegralToBoolean', 'IntegralCast', 'LValueToRValue'):
+            c0 = strip(c0['e'])
+        if isinstance(c0, dict) and c0.get('k') == 'bin' and c0.get('op') == '&&':
+            return self._inline_cond(c0['lhs']) and self._inline_cond(c0['rhs'])
+        if isinstance(c0, dict) and c0.get('k') == 'bin' and c0.get('op') == '||':
+            return self._inline_cond(c0['lhs']) or self._inline_cond(c0['rhs'])
+        if isinstance(c0, dict) and c0.get('k') == 'un' and c0.get('op') == '!':
+            return not self._inline_cond(c0['e'])
+        d = self.decide(c0)
+        if d is not None:
+            return d
+        script = getattr(self, 'script', [])
+        pos = getattr(self, 'script_pos', 0)
+        if pos >= len(script):
+            raise NeedChoice()
+        take = script[pos]
+        self.script_pos = pos + 1
+        key = self.cond_key(c0)
+        for x in [x for x in walk(c0) if x.get('k') == 'call']:
+            self.call(x)
+        self.helper_conds = getattr(self, 'helper_conds', []) + [(key, take)]
+        return take
 
     def describe_arg(self, a):
         x = strip(a)
@@ -871,6 +937,21 @@ def run_path(prog, fn, g, path, script=None):
     seg = Seg(prog, fn)
     seg.script = list(script or [])
     seg.script_pos = 0
+    # reference locals bound once to an object named by the parameters alone (`G1& prodexp = precomputed.prodexp;`) keep their meaning
+    # in every segment, also in those that start at a loop head after the declaration
+    for x in walk(fn['body']):
+        if isinstance(x, dict) and x.get('k') == 'decl':
+            for v in x['vars']:
+                if (v.get('t') or {}).get('k') == 'ref' and v.get('init') is not None and v.get('id') is not None:
+                    ini = v['init']
+                    if any(isinstance(y, dict) and y.get('k') == 'ref' and y.get('rk') == 'local' for y in walk(ini)):
+                        continue
+                    if any(isinstance(y, dict) and y.get('k') in ('call', 'index') for y in walk(ini)):
+                        continue
+                    try:
+                        seg.binds[v['id']] = seg.loc(ini)
+                    except Unsupported:
+                        pass
     conds = []
     for (nid, lab) in path:
         n = g.nodes[nid]
@@ -879,6 +960,12 @@ def run_path(prog, fn, g, path, script=None):
             if isinstance(key, tuple) and key and key[0] == 'decided':
                 if key[1] != lab:
                     return None, None       # the path contradicts what its own statements establish
+                continue
+            if isinstance(key, tuple) and key and key[0] == 'flagrel':
+                # A == B / A != B with the outcome of A chosen: the label fixes B
+                _, op, a, kb = key
+                equal = lab if op == '==' else (not lab)
+                conds.append((kb, a if equal else (not a)))
                 continue
             conds.append((key, lab))
     return seg, conds
